@@ -32,7 +32,7 @@ declare -A CHECKS=(
  [C13k]="C13" [C13l]="C13" [C14k]="C14" [C14l]="C14" [C15k]="C15" [C15l]="C15" [C16q]="C16" [C16r]="C16" [C17k]="C17" [C17l]="C17" [C18k]="C18" [C18l]="C18"
  [C01m]="C01 C17" [C01n]="C01" [C02m]="C16 C02" [C02n]="C02" [C03m]="C03" [C03n]="C03" [C04m]="C04 C18" [C04n]="C04" [C09m]="C09" [C09n]="C09" [C11m]="C11 C15" [C11n]="C11" [C13m]="C13" [C13n]="C13" [C18m]="C18" [C18n]="C18"
  [C05m]="C05" [C05n]="C05 C10" [C07m]="C07" [C07n]="C07" [C12m]="C12 C17" [C12n]="C12" [C14m]="C14" [C14n]="C14" [C17m]="C16 C17" [C17n]="C17" [C10m]="C10" [C10n]="C10 C05"
- [C06m]="C06" [C06n]="C06" [C08m]="C08 C10" [C08n]="C08 C10" [C15m]="C15" [C15n]="C15"
+ [C06m]="C06" [C06n]="C06" [C08m]="C08 C10" [C08n]="C08 C10" [C15m]="C15" [C15n]="C15 C03"
  [C13c]="C13" [C13d]="C13" [C14c]="C14" [C14d]="C14 C07" [C15c]="C15" [C15d]="C15" [C16c]="C16" [C16d]="C16"
 )
 for s in "$@"; do
